@@ -20,11 +20,13 @@ type C20Case struct {
 	Generations int        `json:"generations"`
 	SolvedAt    []int      `json:"solved_at"`            // per trial: generation reported solved, -1 = never
 	Fault       string     `json:"fault"`                // none | error | cancel
+	ErrLate     bool       `json:"error_after_results,omitempty"` // the evaluator fails after it filled the generation's results (solved flag, champion) instead of before
 	ErrKind     string     `json:"error_kind,omitempty"` // plain | canceled | deadline: what the evaluator's own error wraps (the run's context stays alive)
 	FaultTrial  int        `json:"fault_trial"`
 	FaultGen    int        `json:"fault_generation"`
 	Observer    bool       `json:"observer"`
 	PreSized    bool       `json:"trials_presized"`
+	ExtraSlots  int        `json:"trials_extra_slots,omitempty"` // pre-sized record longer than the configured number of trials (an experiment value used before with more runs)
 	Parallel    bool       `json:"parallel_executor"`
 	PopSize     int        `json:"pop_size"`
 	Seed        int64      `json:"seed"`
@@ -36,6 +38,9 @@ func GenC20() *rapid.Generator[C20Case] {
 		c := C20Case{Genome: gg.Draw(t, "genome"), Trials: rapid.IntRange(1, 5).Draw(t, "trials"), Generations: rapid.IntRange(1, 8).Draw(t, "generations"),
 			Observer: rapid.IntRange(0, 3).Draw(t, "observer") != 0, PreSized: rapid.Bool().Draw(t, "presized"), Parallel: rapid.IntRange(0, 3).Draw(t, "parallel") == 0,
 			PopSize: rapid.IntRange(3, 8).Draw(t, "pop size"), Seed: int64(rapid.IntRange(0, 1<<30).Draw(t, "seed"))}
+		if c.PreSized && rapid.IntRange(0, 2).Draw(t, "longer record") == 0 {
+			c.ExtraSlots = rapid.IntRange(1, 2).Draw(t, "extra slots")
+		}
 		for i := 0; i < c.Trials; i++ {
 			s := -1
 			if rapid.IntRange(0, 2).Draw(t, "solved") != 0 {
@@ -46,6 +51,7 @@ func GenC20() *rapid.Generator[C20Case] {
 		c.Fault = rapid.SampledFrom([]string{"none", "none", "error", "cancel"}).Draw(t, "fault")
 		if c.Fault == "error" {
 			c.ErrKind = rapid.SampledFrom([]string{"plain", "plain", "canceled", "deadline"}).Draw(t, "error kind")
+			c.ErrLate = rapid.Bool().Draw(t, "error after results")
 		}
 		if c.Fault != "none" {
 			c.FaultTrial = rapid.IntRange(0, c.Trials-1).Draw(t, "fault trial")
@@ -112,6 +118,10 @@ func (r *protoRecorder) GenerationEvaluate(_ context.Context, pop *genetics.Popu
 	if r.faulted {
 		r.fail("generation (%d,%d) was evaluated after the fault", t, g)
 	}
+	if t < 0 || t >= r.c.Trials || g < 0 || g >= r.c.Generations {
+		r.fail("generation (%d,%d) was evaluated although %d trials of %d generations are configured", t, g, r.c.Trials, r.c.Generations)
+		return errInjected
+	}
 	if g == 0 {
 		if _, seen := r.pops[pop]; seen {
 			r.fail("trial %d runs on the population object of trial %d", t, r.pops[pop])
@@ -148,12 +158,17 @@ func (r *protoRecorder) GenerationEvaluate(_ context.Context, pop *genetics.Popu
 			best = o
 		}
 	}
+	lateError := false
 	if r.c.Fault != "none" && t == r.c.FaultTrial && g == r.c.FaultGen {
 		r.faulted = true
 		if r.c.Fault == "error" {
-			return injectedError(r.c.ErrKind)
+			if !r.c.ErrLate {
+				return injectedError(r.c.ErrKind)
+			}
+			lateError = true // e.g. the evaluator found the winner and then failed to store it
+		} else {
+			r.cancel()
 		}
-		r.cancel()
 	}
 	epoch.FillPopulationStatistics(pop)
 	r.lastSolved = r.c.SolvedAt[t] == g
@@ -162,6 +177,9 @@ func (r *protoRecorder) GenerationEvaluate(_ context.Context, pop *genetics.Popu
 		epoch.Champion = best
 		best.IsWinner = true
 		epoch.WinnerNodes, epoch.WinnerGenes, epoch.WinnerEvals = len(best.Genotype.Nodes), len(best.Genotype.Genes), (g+1)*r.c.PopSize
+	}
+	if lateError {
+		return injectedError(r.c.ErrKind)
 	}
 	return nil
 }
@@ -237,7 +255,10 @@ func CheckC20(c C20Case, rec *Rec) error {
 	r := &protoRecorder{c: c, cancel: cancel, pops: map[*genetics.Population]int{}}
 	exp := &experiment.Experiment{Id: 1, Name: "protocol"}
 	if c.PreSized {
-		exp.Trials = make(experiment.Trials, c.Trials)
+		exp.Trials = make(experiment.Trials, c.Trials+c.ExtraSlots)
+		if c.ExtraSlots > 0 {
+			rec.Class("pre-sized record longer than the configured number of trials")
+		}
 	}
 	var observer experiment.TrialRunObserver
 	if c.Observer {
@@ -317,6 +338,9 @@ func CheckC20(c C20Case, rec *Rec) error {
 				return fmt.Errorf("the evaluator's error (%s) was not returned to the caller: got %v", c.ErrKind, err)
 			}
 			rec.Class("evaluator error kind:" + c.ErrKind)
+			if c.ErrLate && c.SolvedAt[c.FaultTrial] == c.FaultGen {
+				rec.Class("evaluator failed in the generation it reported solved")
+			}
 		case "cancel":
 			lastPlanned := c.FaultTrial == c.Trials-1 && (c.FaultGen == c.Generations-1 || c.SolvedAt[c.FaultTrial] == c.FaultGen)
 			if lastPlanned {
@@ -328,10 +352,15 @@ func CheckC20(c C20Case, rec *Rec) error {
 		return nil
 	}
 	// recorded results
-	if len(exp.Trials) != c.Trials {
-		return fmt.Errorf("%d trials recorded, %d configured", len(exp.Trials), c.Trials)
+	if len(exp.Trials) != c.Trials+c.ExtraSlots {
+		return fmt.Errorf("%d trials recorded, %d configured (%d spare slots in the record)", len(exp.Trials), c.Trials, c.ExtraSlots)
 	}
-	for t, tr := range exp.Trials {
+	for t := c.Trials; t < len(exp.Trials); t++ {
+		if len(exp.Trials[t].Generations) != 0 {
+			return fmt.Errorf("the spare slot %d of the record holds %d generations although only %d trials are configured", t, len(exp.Trials[t].Generations), c.Trials)
+		}
+	}
+	for t, tr := range exp.Trials[:c.Trials] {
 		if tr.Id != t {
 			return fmt.Errorf("trial at position %d has id %d", t, tr.Id)
 		}
